@@ -355,6 +355,10 @@ class EngineBase:
             if isinstance(kind, OBJ) and kind.classes != ('str',):
                 v = VObj(fns[0](o), kind.classes)
                 self.add_background(('ft', key), z3.ForAll([o], self.type_fact(v), patterns=[fns[0](o)]))
+            if isinstance(kind, ENUM):
+                eci = self.repo.cls(kind.cls)
+                if eci is not None and 'Enum' in eci.bases:
+                    self.add_background(('fe', key), z3.ForAll([o], z3.And(0 <= fns[0](o), fns[0](o) < len(eci.class_attrs)), patterns=[fns[0](o)]))
             if isinstance(kind, LIST):
                 self.add_background(('fl', key), z3.ForAll([o], z3.And(fns[-1](o) >= 0, fns[-2](o) >= 0),
                                                            patterns=[fns[-1](o)]))
